@@ -339,7 +339,9 @@ func (w *world) main(replay []core.Cmd) {
 	w.srv = simnet.Serve(w.net, w)
 	// a per-request timeout, as any production HTTP client has: a stalled
 	// server then costs time (on the fake clock), not the run
-	hc := &http.Client{Transport: &http.Transport{DialContext: w.net.Dialer(0), MaxIdleConnsPerHost: 8}, Timeout: 2 * time.Minute}
+	// keep-alives off: which request gets a pooled connection (and hence whether
+	// net/http transparently retries it after a drop) is a race inside net/http
+	hc := &http.Client{Transport: &http.Transport{DialContext: w.net.Dialer(0), DisableKeepAlives: true}, Timeout: 2 * time.Minute}
 	cl, err := sunlight.NewClient(&sunlight.ClientConfig{
 		MonitoringPrefix: "http://log.sim/",
 		PublicKey:        w.key.Public(),
